@@ -262,7 +262,18 @@ func genPolluter(t *rapid.T) string {
 		if strings.HasPrefix(cls, "HTTP") {
 			imp = "导入《@测试库》\n"
 		}
-		return imp + "如何新建" + cls + "？\n    输入甲\n    （显示：“污染”、甲）\n输出1"
+		ctor := func(name, ind string) string {
+			return ind + "如何新建" + name + "？\n" + ind + "    输入甲\n" + ind + "    （显示：“污染”、甲）\n"
+		}
+		switch rapid.IntRange(0, 4).Draw(t, "croute") {
+		case 0: // ... reached through an input of a method
+			return imp + "如何改？\n    输入型\n" + ctor("型", "    ") + "    输出1\n输出（改：" + cls + "）"
+		case 1: // ... through a variable
+			return imp + "令型 = " + cls + "\n" + ctor("型", "") + "输出1"
+		case 2: // ... through a 得到 name
+			return imp + "如何取？\n    输出" + cls + "\n（取），得到型\n" + ctor("型", "") + "输出1"
+		}
+		return imp + ctor(cls, "") + "输出1"
 	case 1, 2: // mutating members on predefined values
 		g := rapid.SampledFrom(globals).Draw(t, "g")
 		m := rapid.SampledFrom(mutators).Draw(t, "m")
